@@ -423,6 +423,7 @@ func parseString(l *syntax.Lexer) (syntax.Token, error) {
 		case syntax.RuneEOF:
 			return syntax.Token{}, zerr.IncompleteString(l.GetCursor())
 		case syntax.RuneCR, syntax.RuneLF:
+			l.CloseLineText(l.GetCursor())
 			p := l.Peek()
 			if (ch == syntax.RuneCR && p == syntax.RuneLF) || (ch == syntax.RuneLF && p == syntax.RuneCR) {
 				literal = append(literal, ch)
@@ -621,6 +622,7 @@ func parseComment(l *syntax.Lexer) (bool, syntax.Token, error) {
 						EndIdx:   l.GetCursor(),
 					}, nil
 				}
+				l.CloseLineText(l.GetCursor())
 				p := l.Peek()
 				if (ch == syntax.RuneCR && p == syntax.RuneLF) || (ch == syntax.RuneLF && p == syntax.RuneCR) {
 					l.Next()
